@@ -128,8 +128,14 @@ def main():
             'add_only': True,
         },
         'engines': [
-            {'name': 'lbzx', 'path': 'framework/lbzx', 'serves_properties': ['C01', 'C03', 'C09', 'C10', 'C11', 'C12', 'C13', 'C19', 'C21'],
-             'kind_free_text': 'lbzip2 compiled unmodified with its pthread/read/write/signal calls routed to a serialising scheduler (vsched.c) and a stateless deviation-bounded explorer (explore.c)'},
+            {'name': 'lbzx', 'path': 'framework/lbzx', 'serves_properties': ['C01', 'C03', 'C05', 'C06', 'C07', 'C08', 'C09', 'C10', 'C11', 'C12', 'C13', 'C15', 'C16', 'C17', 'C18', 'C19', 'C21', 'C22'],
+             'kind_free_text': 'lbzip2 compiled unmodified with its pthread/read/write/signal/file calls routed to a serialising scheduler and environment model (vsched.c), run in-process by a stateless explorer (explore.c): delay-bounded deviations from canonical schedulers, all strict-priority schedulers, priority-change points; fault injection at every call position; invariants (slot counters, heap canaries, heap bound, heap released at exit, happens-before race detector) at every scheduling point'},
+            {'name': 'bzref', 'path': 'framework/bzref', 'serves_properties': ['C02', 'C04', 'C05', 'C06', 'C07', 'C09', 'C10', 'C15', 'C20'],
+             'kind_free_text': 'independent strict bit-by-bit bzip2 reference decoder and stream inspector, cross-checked with libbz2 on every candidate'},
+            {'name': 'bzgen', 'path': 'framework/lib/bzgen.py', 'serves_properties': ['C05', 'C06', 'C07', 'C08', 'C09', 'C10', 'C11', 'C12', 'C13', 'C15'],
+             'kind_free_text': 'bit-level bzip2 stream generator exposing every degree of freedom of the format, mutation helpers, planted headers and verbatim carrier blocks'},
+            {'name': 'codecx', 'path': 'framework/codecx', 'serves_properties': ['C01', 'C04', 'C08', 'C09', 'C14', 'C20'],
+             'kind_free_text': 'function-level enumeration harnesses on collect/encode/transmit/retrieve/decode/emit/scan/assign_codes with reference models (greedy packer, definitional matcher, length-limited optimum), fast/ASan+UBSan/MSan builds'},
         ],
         'checks': checks,
         'not_applicable': na,
